@@ -264,6 +264,12 @@ def rule_removal(ck):
             cuts = switch_cuts_on_call_result(f, lambda cc: cc.bb == c.bb, [0])  # None: nothing removed
             cuts |= switch_cuts_on_call_result(f, lambda cc: cc.name.endswith("Breakpoint::is_enabled"), [0])  # not patched
             normal_held, err_held = held_at_exits(f, c.bb, disb, cuts)
+            if normal_held and _key_selected_as_unmapped(prog, f, c):
+                # the one case with nothing to un-patch: the object that contained the breakpoint is not mapped any more
+                # (dlclose), the patch went away with the mapping. Accepted only when the removed key was selected by a
+                # filter over this very map whose predicate can be true only if RelocatedAddress::into_global(addr) failed.
+                ck.ob("mpt.removal", f"{key}/removed-object-unmapped", True, "key selected by `into_global(addr).is_err()` over the active map", f.loc(c.bb))
+                continue
             ck.ob("mpt.removal", f"{key}/removed-object-unpatched", not normal_held, "a removed, enabled breakpoint can reach a normal return without disable()" if normal_held else "", f.loc(c.bb))
         elif kind in ("take", "drain", "replace", "swap"):
             if kind == "drain":
@@ -283,6 +289,44 @@ def rule_removal(ck):
             ck.ob("mpt.removal", f"{key}/every-drained-object-unpatched", ok, "", f.loc(c.bb))
         else:
             ck.ob("mpt.removal", f"{key}/known-mutation-kind", False, f"unclassified mutation `{kind}` of the active-breakpoint map", f.loc(c.bb))
+
+
+def _key_selected_as_unmapped(prog, f, c):
+    """the key of this HashMap::remove comes out of collect(..filter(iter(self.breakpoints), P)..) where P's only
+    non-false result is Result::is_err(RelocatedAddress::into_global(<item>.addr, ..))"""
+    def find(e, name, out):
+        if isinstance(e, tuple):
+            if e and e[0] == "call" and e[1].endswith(name):
+                out.append(e)
+            for x in e[1:]:
+                if isinstance(x, (tuple, list)):
+                    for y in (x if isinstance(x, list) else [x]):
+                        find(y, name, out)
+        return out
+    key = expr_of(f, c.args[1], depth=24)
+    flt = find(key, "Iterator::filter", [])
+    if len(flt) != 1:
+        return False
+    src, pred = flt[0][2][0], flt[0][2][1]
+    its = find(src, "::iter", [])
+    if not (len(its) == 1 and its[0][2] and _mentions_field(its[0][2][0], "breakpoints", 8)):
+        return False
+    if pred[0] != "agg" or pred[1] != "closure":
+        return False
+    clo = prog.fns.get(pred[2])
+    if clo is None:
+        return False
+    res = expr_of(clo, 0, depth=10)
+    alts = res[1] if res[0] == "multi" else [res]
+    ok = False
+    for a in alts:
+        if a == ("const", 0):
+            continue
+        if a[0] == "call" and a[1].endswith("Result::<T, E>::is_err") and find(a, "RelocatedAddress::into_global", []) and ".addr" in expr_str(a, 10):
+            ok = True
+            continue
+        return False
+    return ok
 
 
 def _mentions_field(e, field, depth=6):
